@@ -2,7 +2,7 @@
    gamma l u x : the non-negative balance x lies within the (lower, upper) bound pair. *)
 From Coq Require Import List ZArith Bool.
 Import ListNotations.
-Require Import RV.Model.C37_Constraint RV.Proof.C37_Constraint RV.Model.C38_Bounds RV.Proof.C38_Bounds.
+Require Import RV.Model.C37_Constraint RV.Proof.C37_Constraint RV.Model.C38_Bounds RV.Proof.C38_Bounds RV.Proof.C38_Ids.
 Open Scope Z_scope.
 
 (* each abstract operation of the bound algebra over-approximates the concrete balance operation *)
@@ -25,6 +25,36 @@ Theorem C38_take_no_panic : forall a t, 0 <= a <= DEC_MAX -> 0 <= t ->
   lower_take_amount (LIncl a) t <> BPanic /\ upper_take_amount (UIncl a) t <> BPanic.
 Proof. exact take_no_panic. Qed.
 
+(* id-set part (ResourceBounds::mut_add / mut_take / mut_handle_assertion, each followed by normalize):
+   gammaNF g ids = ids is a duplicate-free id list satisfying the general constraint g.  Each abstract
+   operation over-approximates the concrete one on non-fungible balances. *)
+Theorem C38_id_bounds_sound :
+  (* merge of two disjoint balances *)
+  (forall g1 g2 g x y, gammaNF g1 x -> gammaNF g2 y -> (forall i, In i x -> ~ In i y) ->
+     NoDup (required g1) -> NoDup (required g2) -> bounds_add g1 g2 = GOk g -> gammaNF g (x ++ y)) /\
+  (* taking ids the balance contains *)
+  (forall g g' x taken, gammaNF g x -> NoDup taken -> incl taken x -> NoDup (required g) ->
+     bounds_take_ids g taken = GOk g' -> gammaNF g' (minus_ids x taken)) /\
+  (* taking t units of unknown identity *)
+  (forall g g' x x' t, gammaNF g x -> NoDup x' -> incl x' x -> 0 <= t -> len x' * SCALE = len x * SCALE - t ->
+     NoDup (required g) -> bounds_take_amount g t = GOk g' -> gammaNF g' x') /\
+  (* an assertion that the balance passes *)
+  (forall g a g' x, gammaNF g x -> SatG a x -> NoDup (required g) -> NoDup (required a) ->
+     bounds_assert g a = GOk g' -> gammaNF g' x).
+Proof.
+  split; [exact bounds_add_sound | split; [exact bounds_take_ids_sound | split; [exact bounds_take_amount_sound | exact bounds_assert_sound]]].
+Qed.
+(* normalize() never loses a balance (no validity assumption) *)
+Theorem C38_normalize_sound : forall g ids, NoDup (required g) -> NoDup ids -> SatG g ids -> SatG (normalize g) ids.
+Proof. exact normalize_sound. Qed.
+(* NOTE (incompleteness, outside the property): mut_take(NonFungibles) can report TakeCannotBeSatisfied
+   for a take the balance can provide, e.g. bounds {required {a}, 1..5, Any}, balance {a,b,c}, take {b,c}:
+   the lower bound drops to 0 and the check |required| <= lower fails although {a} remains. The analyser
+   then fails instead of reporting bounds, which the soundness statement does not forbid. *)
+Example C38_take_incomplete :
+  bounds_take_ids (mkGeneral [1%N] (LIncl (1 * SCALE)) (UIncl (5 * SCALE)) AnyIds) [2%N; 3%N] = GErr GETakeCannotBeSatisfied.
+Proof. vm_compute. reflexivity. Qed.
+
 Example C38_nonvacuous :
   gamma LNonZero (UIncl (5 * SCALE)) (2 * SCALE) /\
   lower_add_from LNonZero (LIncl 0) = BOk LNonZero /\
@@ -35,3 +65,5 @@ Proof. repeat split; vm_compute; try reflexivity; discriminate. Qed.
 Print Assumptions C38_bound_ops_sound.
 Print Assumptions C38_constrain_is_intersection.
 Print Assumptions C38_take_no_panic.
+Print Assumptions C38_id_bounds_sound.
+Print Assumptions C38_normalize_sound.
